@@ -623,8 +623,57 @@ def monitorC20Unrequested (script : List Cmd) (iters : List Iter) (d : Nat) : Op
         (fun (acc : List Wire.Rec) x => if acc.any (sameKey · x.r) then acc else x.r :: acc) []
       let cachedTotal := ["cached-ptr", "cached-srv", "cached-txt", "cached-addr", "cached-nsec"].foldl
         (fun acc key => acc + metricOf toks key) 0
+      -- the subtype table (instance -> subtype) is filled from subtype PTR records "for us" only:
+      -- at most one entry per instance named by a PTR whose owner has `._sub.` and whose packet
+      -- the daemon takes in (a browsed type among its PTR answers, or accept_unsolicited on)
+      let accept := script.any fun c => match c with | .other ("accept" :: _) => true | _ => false
+      let isSub (n : BList) : Bool := decide (((String.ofList (n.map fun b => Char.ofNat b.toNat)).splitOn "._sub.").length ≥ 2)
+      let subInsts := ((ds.filter fun x => x.k ≤ k && x.r.ty == 12 && isSub x.r.name &&
+          (accept || x.ptrAnswers.isEmpty || x.ptrAnswers.any fun n => browsed.contains n)).filterMap fun x =>
+        match x.r.rdata with | .ptr n => some n | _ => none).eraseDups
       if cachedTotal > neededKeys.length then
         some s!"unrequested-data-kept cached={cachedTotal} needed<={neededKeys.length} t={t}"
+      else if metricOf toks "cached-subtype" > subInsts.length then
+        some s!"subtype-table-holds-entries-nobody-asked-for cached-subtype={metricOf toks "cached-subtype"} for-us<={subInsts.length} t={t}"
       else none
+
+/-- `ok_C17`, removals: an address that was reported on an open search and whose every record
+    ran out by plain TTL expiry (never refreshed, no goodbye, no flush; the only address record
+    of that host with that address) is reported through AddressesRemoved at that moment. -/
+def monitorC17Removed (script : List Cmd) (iters : List Iter) (d : Nat) : Option String :=
+  let ds := deliveriesOn (linksOf script d) iters d
+  let calls := processedCalls script iters cmdDaemon
+  let itArr := iters.toArray
+  let timeOf (k : Nat) := (itArr[k]?.map (·.now)).getD 0
+  let tEnd := (iters.getLast?.map (·.now)).getD 0
+  let odd := script.any fun c => match c with | .ifaces .. | .now _ | .verify .. | .shutdown .. => true | _ => false
+  if odd then none else
+  let searches := calls.filterMap fun ((c, k0) : Cmd × Nat) =>
+    match c with | .resolve d' ch h to => if d' == d then some (ch, h, k0, to) else none | _ => none
+  searches.findSome? fun ((ch, h, k0, to) : Nat × BList × Nat × Option Nat) =>
+    -- the search stays open to the end of the history
+    let ended := to.isSome || calls.any fun ((c', k') : Cmd × Nat) =>
+      match c' with
+      | .stopResolve d' h' => d' == d && lower h' == lower h && k' ≥ k0
+      | .resolve d' _ h' _ => d' == d && lower h' == lower h && k' > k0
+      | _ => false
+    if ended then none else
+    ds.findSome? fun x =>
+      if !((x.r.ty == 1 || x.r.ty == 28) && lower x.r.name == lower h && x.r.ttl > 1 && x.k > k0) then none else
+      -- the only delivery of an address record of this host with this address (any spelling, bit)
+      let only := !(ds.any fun y => (y.r.ty == 1 || y.r.ty == 28) && lower y.r.name == lower h && ipOf y.r == ipOf x.r &&
+        !(y.k == x.k && y.t == x.t && y.r == x.r))
+      -- nothing flushes it: no other address record of the host with the cache-flush bit later
+      let flushed := ds.any fun y => y.k > x.k && y.r.flush && y.r.ty == x.r.ty && lower y.r.name == lower h
+      let e := x.t + 1000 * x.r.ttl
+      match ipOf x.r with
+      | none => none
+      | some ip =>
+        let listed (kind : String) (lo hi : Nat) : Bool := (chanEvents iters d ch).any fun ev =>
+          ev.2.headD "" == kind && timeOf ev.1 ≥ lo && timeOf ev.1 ≤ hi &&
+          (match parseAddrsEvent ev.2 with | some (_, _, addrs) => addrs.any fun a => a.ip == ip | none => false)
+        if !only || flushed || e + 1500 > tEnd || !listed "hfound" 0 e then none
+        else if listed "hremoved" (e - 1000) (e + 1000) then none
+        else some s!"no-AddressesRemoved-when-the-address-ran-out host={hexOfBytes h} ip={hexOfBytes ip} expiry={e}"
 
 end Mdns.Driver.MonClient
